@@ -49,6 +49,8 @@ def gen_circuit(rs, idx, tier, kinds=None, clt=0.25):
         kinds = [("bern",), ("bern", "cat"), ("bern", "cat", "gauss", "unif", "iso"), ("bern",),
                  ("gauss", "unif", "iso", "bern")][idx % 5]
     root = G.rand_circuit(rs, scope, kinds=kinds, clt=clt, share=0.3)
+    if idx % 7 == 3:
+        G.skew_params(root, rs)   # exact-zero weights, extreme / deterministic leaf parameters
     assign_ids(root)
     if rs.rand() < 0.5:
         relabel_ids(root, rs)
